@@ -74,6 +74,7 @@ type Replica struct {
 	hsCur pb.HardState
 
 	more            bool         // last Ready said MoreCommittedEntries
+	confFromSnap    bool         // this incarnation took its configuration base from a snapshot
 	sendingEarly    bool         // inside the early send of a replica that just became leader
 	leaderMsgs      int          // MsgApp/MsgHeartbeat/MsgSnap stepped in since the last StepNode
 	removedAsNonLdr bool         // applied a RemoveNode in its last Ready while not leader
@@ -688,6 +689,7 @@ func (s *Sim) applyReady(r *Replica, rd *raft.Ready, hasSnap bool) {
 		}
 		r.app.conf = cloneConf(rd.Snapshot.Metadata.ConfState)
 		r.app.confKnown = true
+		r.confFromSnap = true
 		s.noteConf(r)
 		s.snapInstallN++
 		s.count("snapshots_installed", 1)
@@ -770,6 +772,7 @@ func (s *Sim) crashAt(r *Replica, pos int, effective bool) {
 	r.node = nil
 	r.alive = false
 	r.app = appState{}
+	r.confFromSnap = false
 	r.role, r.lead = raft.StateFollower, 0
 	r.busySnap, r.noApply = false, false
 	r.lastCrashPos = pos
@@ -864,6 +867,7 @@ func (s *Sim) restart(r *Replica, advanceTicks bool) {
 			r.app.chain = binary.BigEndian.Uint64(snap.Data[8:16])
 			r.app.conf = cloneConf(snap.Metadata.ConfState)
 			r.app.confKnown = true
+			r.confFromSnap = true
 		}
 	})
 	if !okk {
